@@ -73,7 +73,7 @@ def InQ.append (q : InQ) (pkt : Option (Nat × List Nat)) : Option InQ :=
 /-- OutQueue.cleanAckedChunks -/
 def OutQ.clean (q : OutQ) : OutQ :=
   let out := q.acked.foldl (fun o a => o.eraseP (fun c => c.1 == a)) q.out
-  let acked := if q.acked.length > SA.Gen.maxCachedChunks then q.acked.take SA.Gen.maxCachedChunks else q.acked
+  let acked := if q.acked.length > SA.Gen.maxCachedChunks then q.acked.drop (q.acked.length - SA.Gen.maxCachedChunks) else q.acked
   { q with out := out, acked := acked, hasData := !out.isEmpty }
 
 def OutQ.updateAcked (q : OutQ) (seq : Nat) : OutQ :=
@@ -365,7 +365,7 @@ def hostTooLong (domLen n : Nat) : Bool :=
 
 /-- does util.WrapDnsResponse fail for L bytes of (already encoded) data? -/
 def wrapFails (qtype domLen L : Nat) : Bool :=
-  if qtype = 10 ∨ qtype = 65000 ∨ qtype = 16 ∨ qtype = 33 ∨ qtype = 28 then false
+  if qtype = SA.Gen.c12QueryTypeNull ∨ qtype = SA.Gen.c12QueryTypePrivate ∨ qtype = 16 ∨ qtype = 33 ∨ qtype = 28 then false
   else if qtype = 1 then decide (ceilDiv L 3 > 255)
   else if qtype = 15 then hostTooLong domLen (min L (longestData domLen))
   else if qtype = 5 then hostTooLong domLen (2 + min L (longestData domLen))
